@@ -488,6 +488,15 @@ def run(ctx):
         ctx.sample({"record": meta[-1][0], "program": program_text(meta[-1][1]), "observed": meta[-1][2][1]})
     with ctx.timed("coq_cases"):
         bad, err = coq_eval_mismatches(ctx, "C08", "C08.Assign C08.Harness", "case", "chk", terms)
+    if bad and not err:
+        # a program can leave the model's domain at run time (e.g. a computed int used as a map key: the model has string keys only);
+        # the model then answers OutOfModel and the case is not a comparison at all: drop it, counted
+        with ctx.timed("coq_cases"):
+            out, err2 = coq_eval_mismatches(ctx, "C08", "C08.Assign C08.Harness", "case", "in_model", [terms[i] for i in bad])
+        if not err2:
+            oom = set(bad[j] for j in out)
+            ctx.dist("assign_out_of_model_at_run_time", len(oom))
+            bad = [i for i in bad if i not in oom]
     ctx.cov["correspondence"]["assign_cases"] = len(terms)
     ctx.cov["correspondence"]["assign_mismatches"] = len(bad)
     if err:
